@@ -83,7 +83,22 @@ Definition refs_ok (S : schema) (d : dbstate) (obs : list oref) : bool :=
   let m := model_refs S d in
   forallb (fun x => bool_decide (x ∈ obs)) m && forallb (fun x => bool_decide (x ∈ m)) obs.
 
-Fixpoint check_txns (S : schema) (d : dbstate) (i : nat) (l : list (list lop * tobs)) : nat :=
+(** known-finding class 1 (C03/C06): while the transaction runs, two rows of
+    its working set hold the same value of a schema index (a transient
+    duplicate) and further operations follow.  The transaction cache keeps a
+    single row per schema-index value, so a later condition evaluated through
+    that index misses one of the rows. *)
+Fixpoint transient_dup (S : schema) (d0 d : dbstate) (ops : list op) : bool :=
+  match ops with
+  | [] => false
+  | o :: ops' =>
+    let '(r, d') := exec_op S d0 d o in
+    if is_err r then false
+    else (negb (db_unique S d') && negb (match ops' with [] => true | _ => false end))
+         || transient_dup S d0 d' ops'
+  end.
+
+Fixpoint check_txns (S : schema) (d : dbstate) (l : list (list lop * tobs)) : nat :=
   match l with
   | [] => 0
   | (lops, ob) :: l' =>
@@ -94,13 +109,11 @@ Fixpoint check_txns (S : schema) (d : dbstate) (i : nat) (l : list (list lop * t
                           (2, state_ok d' (t_state ob));
                           (3, refs_ok S d' (t_refs ob)) ] in
     match t with
-    | 0 => check_txns S d' (Datatypes.S i) l'
-    | _ => 10 * (Datatypes.S i) + t
+    | 0 => check_txns S d' l'
+    | _ => if transient_dup S d d ops then 101 else t
     end
   end.
 
-Definition check (c : case) : nat :=
-  let t := check_txns (c_schema c) ∅ 0 (c_txns c) in
-  if Nat.ltb 99 t then 90 + Nat.modulo t 10 else t.
+Definition check (c : case) : nat := check_txns (c_schema c) ∅ (c_txns c).
 
 Definition run := run_cases check.
